@@ -3,8 +3,10 @@ import S2T.Model.Loops
 import S2T.Model.Limits
 import S2T.Model.Amplify
 import S2T.Gen.C12Consts
+import S2T.Model.XmlEntities
+import S2T.Gen.C12Xml
 namespace S2T.Drv.C12
-open Lean S2T.Drv S2T.Loops S2T.Limits S2T.Amplify
+open Lean S2T.Drv S2T.Loops S2T.Limits S2T.Amplify S2T.XmlEnt
 open S2T.Gen (C12Consts.filepassId)
 
 def jN (n : Nat) : Json := Json.num (JsonNumber.fromNat n)
@@ -55,8 +57,38 @@ def parseTarMembers (j : Json) : Except String (List TarMember) := do
 def digitList (s : String) : Except String (List Nat) :=
   s.toList.mapM (fun ch => if ch.isDigit then pure (ch.toNat - 48) else throw s!"not a digit: {ch}")
 
+def parseItems (a : Array Json) : Except String (List Item) :=
+  a.toList.mapM (fun it => do
+    let xs ← it.getArr?
+    let k ← match xs[0]? with | some v => v.getStr? | none => throw "empty item"
+    match k with
+    | "lit" => match xs[1]? with | some v => do return Item.lit (← v.getNat?) | none => throw "lit without a length"
+    | "ref" => match xs[1]? with | some v => do return Item.ref (← v.getNat?) | none => throw "ref without an index"
+    | "amp" => pure Item.amp
+    | _ => throw s!"unknown item {k}")
+
+/-- the chain(s) the current source has for one parsing function (generated) -/
+def genChainsOf (fn : String) : List (List Stage) :=
+  (S2T.Gen.C12Xml.xmlParseChains.filter (fun c => c.2.1 == fn)).map (fun c => c.2.2.map Stage.ofTuple)
+
 def handle (op : String) (j : Json) : Option (Except String Json) :=
   match op with
+  | "c12.xml_part" => some do
+      let site ← getStr j "site"
+      -- site "reference:lenient" = the fixed reference chain of the counterexample theorems (defused, then the plain
+      -- parser on the stripped bytes behind `except ParseError`), compared with the same two real parsers by the harness
+      let chain ← if site == "reference:lenient" then pure [defusedStage, lenientFallback] else match genChainsOf site with
+        | [c] => pure c
+        | cs => throw s!"{cs.length} parser chains generated for {site} (expected one)"
+      let szj ← j.getObjVal? "sizes"
+      let sz : Sizes := ⟨← getNat szj "decl", ← getNat szj "dtd", ← getNat szj "ent", ← getNat szj "root"⟩
+      let ents ← (← getArr j "ents").toList.mapM (fun e => do parseItems (← e.getArr?))
+      let p : Part := ⟨← getBool j "bom", ← getNat j "ws", ← getBool j "decl", ← getBool j "doctype", ents, ← parseItems (← getArr j "body")⟩
+      let out := match runChain chain p with
+        | .ok n => Json.mkObj [("outcome", Json.str "ok"), ("text_len", jN n)]
+        | .parseError => Json.mkObj [("outcome", Json.str "parse-error")]
+        | .forbidden => Json.mkObj [("outcome", Json.str "forbidden")]
+      return out.setObjVal! "bytes" (jN (p.bytes sz)) |>.setObjVal! "stages" (jN chain.length)
   | "c12.xls_filepass" => some do
       let d ← natArr j "d"
       let r := xlsFilepass S2T.Gen.C12Consts.filepassId d 0
